@@ -60,7 +60,7 @@ type tEvent struct {
 	Scen int    `json:"scen"`
 }
 
-var envActions = map[string]bool{"run": true, "stop": true, "dial": true, "close": true, "send": true, "release": true, "panic": true, "reset": true, "hold_onclose": true, "release_onclose": true, "sendpartial": true, "stopreading": true, "probe": true}
+var envActions = map[string]bool{"run": true, "stop": true, "dial": true, "close": true, "send": true, "release": true, "panic": true, "reset": true, "hold_onclose": true, "release_onclose": true, "sendpartial": true, "stopreading": true, "probe": true, "sleep": true}
 
 type framePlan struct {
 	c     string
@@ -696,6 +696,10 @@ func (r *runner) step(e sEvent) {
 		n := len(r.clients) + r.extraConns
 		r.mu.Unlock()
 		r.waitGate("run.registered", n)
+	case "sleep":
+		// time passes on an idle session (harness-only: the model has no notion of time)
+		r.emit(tEvent{Ev: "sleep", N: e.I})
+		time.Sleep(time.Duration(e.I) * time.Millisecond)
 	case "stopreading":
 		r.mu.Lock()
 		cl := r.clients[e.C]
